@@ -255,7 +255,10 @@ class SMCSampler(MCMCSampler):
             self.history = SMCHistory()
         self.fit_preconditioning_transform(samples.x)
 
-        if store_sample_history:
+        # A restored history already ends with the restored population
+        if store_sample_history and not (
+            resumed and self.history.sample_history
+        ):
             self.history.sample_history.append(samples)
 
         if self.xp.isnan(samples.log_q).any():
